@@ -10,13 +10,20 @@ out = ["# Seeded changes and which checks catch them", "",
        "each was confirmed (in that worktree) to apply, to build both libraries warning-free, to pass the complete repository suite,",
        "to make its demonstration fail, and the demonstration to pass without it (`meta.json`). Checks were run with",
        "`bin/mutant_run.py seeded/<id>/patch.diff <property>...` (scratch copy of the library; /repo is never modified).", "",
-       "| id | breaks | needs, in order to manifest | checks run and outcome |", "|---|---|---|---|"]
+       "The last column is the outcome of `bin/seed_matrix.py` (every kept change re-run against the FINAL tree and checks: the quick check of",
+       "its own property first, then C12, C02, C03, C10 until one reports it); changes whose lines were altered by a later `fix:` commit are",
+       "re-applied from `patch_rebased.diff`.", "",
+       "| id | breaks | needs, in order to manifest | checks run and outcome (when the change was received) | final matrix |", "|---|---|---|---|---|"]
 det = miss = 0
 for m in rows:
     c = m["checks_run"]
     if ("MISSED by" in c or "reported by no check" in c) and "DETECTED" not in c: miss += 1
     else: det += 1
-    out.append("| %s | %s | %s | %s |" % (m["id"], m["breaks_property"], m["needs_to_manifest"].replace("|", "/"), c.replace("|", "/")))
+    mx = os.path.join(V, "seeded", m["id"], "matrix.json"); fin = ""
+    if os.path.exists(mx):
+        r = json.load(open(mx))["results"]; hit = [p for p in r if "DETECTED" in r[p]]
+        fin = ("reported by " + hit[0]) if hit else ("not reported (" + ", ".join(sorted(r)) + " quick)" if "PATCH DOES NOT APPLY" not in " ".join(r.values()) else "patch no longer applies")
+    out.append("| %s | %s | %s | %s | %s |" % (m["id"], m["breaks_property"], m["needs_to_manifest"].replace("|", "/"), c.replace("|", "/"), fin))
 out += ["", "%d seeded changes kept; %d are reported by at least one registered check, %d by none." % (len(rows), det, miss)]
 open(os.path.join(V, "seeded", "RESULTS.md"), "w").write("\n".join(out) + "\n")
 print(out[-1])
